@@ -149,7 +149,7 @@ PLAN = {
                   "k<=2 (k<=1 for 3-thread programs)", "k<=3 / k<=2"),
     "C04": _qplan("barrier and non-barrier items (async, sync, barrier block objects, apply) on a custom concurrent queue, default and width-2",
                   "k<=1", "k<=2 (programs cut by the deadline report their completed bound)"),
-    "C05": _qplan("every synchronous hand-off edge (sync, barrier_sync, async_and_wait, apply) contended by a second thread, over serial/concurrent/global/chained/workloop",
+    "C05": _qplan("every synchronous hand-off edge (sync, barrier_sync, async_and_wait, apply) contended by a second thread, over serial/concurrent/global/chained/workloop; plus the semaphore (225 core wait/signal programs), group (wait, notify) and once hand-off edges",
                   "k<=2 on serial hierarchies, k<=1 on the pool", "k<=3 / k<=2"),
     "C13": {
         "rule": "breadth-first search over terms built from 3 leaves (sizes 1,2,3; five leaf-kind configurations) with concat / subrange (all offsets and lengths incl. out-of-range) / "
@@ -372,5 +372,11 @@ def _tasks_for(pid, tier):
     qmap = {"C01": "q01", "C02": "q02", "C03": "q03", "C04": "q04", "C05": "q05"}
     if pid in qmap:
         extra = ds("mainrl", 2 if q else 3, [0, 1, 2], jobs=4) if pid == "C02" else []     # main queue serviced by a run loop (4CF callback), nested turn
+        if pid == "C05":
+            # the other hand-off edges of the property: a semaphore wait satisfied by a signal, a group wait / notify observing
+            # the leaves, dispatch_once returning after the initialiser (return-after-completion = ordering under SC exploration)
+            core = [v for v, d in sorted(descs("sema").items()) if "{core}" in d]
+            extra = (ds("sema", 2 if q else 3, core, jobs=2) + ds("once", 2 if q else 3, [0, 1, 2, 3], jobs=4) +
+                     ds("group", 2 if q else 3, [0, 3, 4, 6, 9, 16, 18], jobs=4))
         return qp(qmap[pid], tier, 2 if q else 3, 1 if q else 2) + extra
     raise KeyError(pid)
